@@ -481,6 +481,8 @@ def _call_spec(R: Recorder, stream: str, ep: str, args, kwargs=None, *, fn=None,
     witness = {"ep": ep, "args": list(args), "kwargs": kwargs}
     try:
         f = fn or resolve(ep)
+        if isinstance(f, property):
+            f = f.fget
         a = [G.materialize(x) for x in args]
         kw = {k: G.materialize(v) for k, v in kwargs.items()}
     except G.ArgBuild as e:
